@@ -49,6 +49,10 @@ More information:
 Traceback (most recent call last):
     ...
 InvalidFormat: ...
+>>> validate('(00)10123456')  # an SSCC always has 18 digits
+Traceback (most recent call last):
+    ...
+InvalidLength: ...
 """
 
 import datetime
@@ -212,6 +216,9 @@ def info(number, separator=''):
             idx = number.find(separator)
             if idx > 0:
                 value = number[:idx]
+        elif not info.get('fnc1', False) and len(value) < _max_length(info['format'], info['type']):
+            # values of application identifiers with a predefined length cannot be shorter
+            raise InvalidLength()
         number = number[len(value):]
         # validate the value if we have a custom module for it
         if ai in _ai_validators:
